@@ -65,9 +65,9 @@ def check_invs(eng, st, lc, n, kind, node, extra=None):
 
 def assume_invs(eng, st, lc, extra=None):
     from .specs import SpecEval
-    for inv in lc.get("inv", []):
+    for i_v, inv in enumerate(lc.get("inv", [])):
         se = SpecEval(eng, st, pre_state=st.old, extra=extra)
-        st.assume(se.boolean(inv))
+        st.assume(se.boolean(inv), tag=f"inv:{lc.get('labels', {}).get(inv, i_v)}")
 
 
 def loop_mods(eng, lc, body):
@@ -115,13 +115,21 @@ def cut_loop(eng, node, st, k, ctx, n, lc, guard_fn, pre_body, post_body, index_
         elif cur is None or cur.s == PY:
             st.env[nm] = fresh_value("lp!" + nm, srt)
     mods = loop_mods(eng, lc, node.body)
+    # object-granular entries ("Class.field@expr", "list@expr"): only that object's cell changes; expr is evaluated at loop entry
+    gran = {}
+    for m in list(mods):
+        if "@" in m:
+            base, expr = m.split("@", 1)
+            gran.setdefault(base, []).append(z3.simplify(lift(SpecEval(eng, st, pre_state=st.old).value(expr)).t))
+    mods = [m for m in mods if "@" not in m]
     alloc0 = st.heap.alloc
     eng.havoc_arrays(st, mods)
+    gran_arrays = eng.granular_arrays(st, gran)
+    modset = set()
+    for m in mods:
+        modset |= ({"list.len", "list.I", "list.R", "list.S", "list.nan"} if m == "list" else {m, m + "#n"})
     if lc.get("allocates", True):
         # objects allocated by earlier iterations: every array may have changed on fresh objects only
-        modset = set()
-        for m in mods:
-            modset |= ({"list.len", "list.I", "list.R", "list.S", "list.nan"} if m == "list" else {m, m + "#n"})
         for nm in list(st.heap.arrs):
             if nm in modset:
                 continue
@@ -131,7 +139,10 @@ def cut_loop(eng, node, st, k, ctx, n, lc, guard_fn, pre_body, post_body, index_
             st.heap.arrs[nm] = z3.Lambda([o], z3.If(o <= alloc0, z3.Select(old, o), z3.Select(junk, o)))
         na = fresh("alloc", z3.IntSort())
         st.assume(na >= alloc0)
+        from .engine import record_alloc
+        record_alloc(na, alloc0)
         st.heap.alloc = na
+    eng.apply_granular(st, gran_arrays, modset)
     for g in lc.get("ghost_modifies", []):
         eng.havoc_arrays(st, ["ghost." + g])
     havoc_locals(eng, st, body_names)
@@ -144,7 +155,7 @@ def cut_loop(eng, node, st, k, ctx, n, lc, guard_fn, pre_body, post_body, index_
         variant0 = SpecEval(eng, st, pre_state=st.old, extra=index_extra(st)).value(lc["decreases"])
 
     log0 = len(st.wlog)
-    declared_names = set(mods) | {"ghost." + g for g in lc.get("ghost_modifies", [])}
+    declared_names = set(mods) | set(gran) | {"ghost." + g for g in lc.get("ghost_modifies", [])}
 
     def check_declared(s_end):
         for nm in s_end.wlog[log0:]:
